@@ -73,6 +73,8 @@ def corpus():
         "expr-defaults-partly-given": L.addxx(1, c=5),
         "failing-default": L.dflt_fail(1),
         "failing-default-given": L.dflt_fail(1, 2),
+        "failing-default-given-by-keyword": L.dflt_fail(1, b=2),
+        "expr-default-given-by-keyword": L.addx(1, b=L.inc(5)),
         "containers": [L.inc(1), (L.inc(2), 3), {"a": L.inc(3), L.inc(4): 5}, [{L.inc(7), 1}]],
         "set-with-expression-root": {L.inc(1), 1, 2},            # fixed: Set.get_hash on unorderable elements
         "set-with-expression-arg": L.pair({L.inc(5), 1, "a"}, 2),
@@ -88,6 +90,9 @@ def corpus():
         "lazy-call": L.apply2(L.inc, 1),
         "lazy-call-partial": L.apply2(L.add.partial(b=2), 1),
         "partial-expr-arg": L.apply2(L.add.partial(b=L.inc(1)), 1),
+        "lazy-call-partial-kw-override": identity(L.add.partial(b=2))(1, b=5),
+        "lazy-call-partial-kw-extra": identity(L.kwonly.partial(1, k=2))(m=L.inc(3)),
+        "map-partial-of-partial": map_(L.varsum.partial(1).partial(2, scale=3), [1, 2]),
         "cond": cond(L.inc(0) == 1, L.inc(10), L.raiser("V", 1)),
         "cond-untaken-error": cond(True, 1, L.raiser("V", 2)),
         "cond-noelse-false": cond(L.inc(0) == 2, 5),
@@ -210,7 +215,7 @@ def run(ctx):
     for name, e in corpus().items():
         progs.append((name, e, G.to_sx(e), {"source": "corpus"}))
     base = rng.getrandbits(48)
-    n = ctx.n(220, 1000)
+    n = ctx.n(170, 1000)
     feats = {}
     for i in range(n):
         prng = random.Random(base + i)
